@@ -579,7 +579,14 @@ static Token *subst(Token *tok, MacroArg *args) {
   Token head = {};
   Token *cur = &head;
 
+  // True if the left operand of the next ## is a placemarker, i.e. the
+  // (empty) result of pasting two empty arguments.
+  bool placemarker = false;
+
   while (tok->kind != TK_EOF) {
+    if (placemarker && !equal(tok, "##"))
+      placemarker = false;
+
     // "#" followed by a parameter is replaced with stringized actuals.
     if (equal(tok, "#")) {
       MacroArg *arg = find_arg(args, tok->next);
@@ -604,6 +611,22 @@ static Token *subst(Token *tok, MacroArg *args) {
         }
         continue;
       }
+    }
+
+    if (equal(tok, "##") && placemarker && tok->next->kind != TK_EOF) {
+      // placemarker ## rhs is just rhs.
+      MacroArg *arg = find_arg(args, tok->next);
+      placemarker = false;
+      if (arg) {
+        if (arg->tok->kind == TK_EOF)
+          placemarker = true;
+        for (Token *t = arg->tok; t->kind != TK_EOF; t = t->next)
+          cur = cur->next = copy_token(t);
+      } else {
+        cur = cur->next = copy_token(tok->next);
+      }
+      tok = tok->next->next;
+      continue;
     }
 
     if (equal(tok, "##")) {
@@ -637,6 +660,8 @@ static Token *subst(Token *tok, MacroArg *args) {
       if (arg->tok->kind == TK_EOF) {
         MacroArg *arg2 = find_arg(args, rhs);
         if (arg2) {
+          if (arg2->tok->kind == TK_EOF)
+            placemarker = true;
           for (Token *t = arg2->tok; t->kind != TK_EOF; t = t->next)
             cur = cur->next = copy_token(t);
         } else {
